@@ -28,6 +28,9 @@ type SimplePage struct {
 	// UserUnit, when non-zero, is written as /UserUnit (PDF 1.6: the size of a
 	// user-space unit in 1/72 inch; coordinates stay in user space).
 	UserUnit float64
+	// Unreadable: the page's content stream claims /FlateDecode but holds no
+	// zlib data: the page exists (it counts, it has a box) but cannot be extracted
+	Unreadable bool
 }
 
 // SimplePDF writes a plain single-revision PDF (classic xref, direct lengths,
@@ -71,7 +74,7 @@ func SimplePDF(pages []SimplePage) []byte {
 		objs = append(objs,
 			RevObj{Key: pk, Num: pn, Obj: append(Dict{{"Type", Name("Page")}, {"Parent", Ref{"root"}}, {"MediaBox", boxOf(i, p, &objs, next)},
 				{"Resources", Dict{{"Font", Dict{{"F1", Ref{"f1"}}, {"F2", Ref{"f2"}}}}}}, {"Contents", Ref{ck}}}, extra...)},
-			RevObj{Key: ck, Num: cn, Obj: &Stream{Raw: []byte(sb.String()), LenMode: "direct"}})
+			RevObj{Key: ck, Num: cn, Obj: contentStream(p, sb.String())})
 		kids = append(kids, Ref{pk})
 	}
 	head := []RevObj{
@@ -83,6 +86,13 @@ func SimplePDF(pages []SimplePage) []byte {
 	f.E.R = rand.New(rand.NewSource(2))
 	f.WriteRevision(&Rev{Objs: append(head, objs...), Root: "catalog"})
 	return append([]byte{}, f.Bytes()...)
+}
+
+func contentStream(p SimplePage, content string) *Stream {
+	if p.Unreadable {
+		return &Stream{D: Dict{{"Filter", Name("FlateDecode")}}, Raw: []byte("\x00\x01 this is not a zlib stream \xff\xfe"), LenMode: "direct"}
+	}
+	return &Stream{Raw: []byte(content), LenMode: "direct"}
 }
 
 func fnum(v float64) string {
